@@ -67,3 +67,18 @@ declare_class(
         "bp_per_texel": REAL,
     },
 )
+
+# --- FASTA side -----------------------------------------------------------------------------
+# Abstract bytes values are triples (kind, first, n):
+#   kind 0: residues [first, first+n) (0-based) of the record being read, in file order
+#   kind 2: the reverse complement of residues [first, first+n)
+#   kind 1: n filler (gap) characters            kind 3: a line terminator
+declare_class("FastaInfo", fields={"length": INT, "file_offset": INT, "residues_per_line": INT, "max_line_length": INT})
+# binary file handle on the FASTA file: cursor `pos`; ghost: the layout reads are checked against and the
+# index of the next residue the caller is entitled to read
+declare_class("FastaFH", fields={"pos": INT, "g_info": TRef("FastaInfo"), "g_next": INT})
+declare_class("BytesIO", fields={"g_kind": INT, "g_first": INT, "g_n": INT, "g_pos": INT})
+declare_class(
+    "FastaIndex",
+    fields={"fasta_fileandle": TRef("FastaFH"), "buffer_size": INT, "index": TDict(STR, TRef("FastaInfo"))},
+)
